@@ -111,6 +111,22 @@ func run(sc scenario) (body func(), check func(r *vrt.Result) []finding) {
 			add("outcome:"+r.Outcome, "execution ended with %s: %s", r.Outcome, firstLine(r.Panic))
 			return out
 		}
+		failed := map[string]string{}
+		for i, m := range w.Errors {
+			if i > 0 {
+				break // later errors are consequences: the relay closes both connections when a direction fails
+			}
+			d, c := hw.ErrorClass(m)
+			if _, ok := failed[d]; !ok {
+				failed[d] = c
+				add(d+":relay_direction_failed:"+c+":"+classFor(d), "the relay stopped relaying %s: %s", d, m)
+			}
+		}
+		if len(failed) > 0 {
+			// once a direction fails the relay ends the whole session: everything after is missing in both
+			// directions; the failure itself is the finding
+			return out
+		}
 		if w.Server == nil || w.ProxyRet {
 			cls := "preface_whole"
 			if sc.PrefaceSeg > 0 {
@@ -119,18 +135,7 @@ func run(sc scenario) (body func(), check func(r *vrt.Result) []finding) {
 			add("relay_gave_up:"+cls, "relay returned early (dialled=%v, err=%v, preface write err=%v)", w.Server != nil, w.ProxyErr, prefaceErr)
 			return out
 		}
-		failed := map[string]string{}
-		for _, m := range w.Errors {
-			d, c := hw.ErrorClass(m)
-			if _, ok := failed[d]; !ok {
-				failed[d] = c
-				add(d+":relay_direction_failed:"+c+":"+classFor(d), "the relay stopped relaying %s: %s", d, m)
-			}
-		}
 		cmp := func(dir string, sent, recv []hw.Event) {
-			if _, dead := failed[dir]; dead {
-				return // everything after the failure is missing; reported once above
-			}
 			sm := hw.PerStream(sent, "wu")
 			rm := hw.PerStream(recv, "wu")
 			ids := map[uint32]bool{}
